@@ -1,5 +1,5 @@
 (* C09 — tables keep their grid: rows, cells, spans and header rows. *)
-From Mammoth Require Import Tables TablesFacts Convert ConvertSpec ConvertRules.
+From Mammoth Require Import Tables TablesFacts Convert ConvertSpec ConvertRules Reader TableEndSpec TableEndFacts.
 Local Open Scope N_scope.
 
 (* THE grid theorem, for every well-formed tiling encoding of any size: laying out the cells that the
@@ -81,8 +81,28 @@ Example C09_witness :
   row_spans rows = [[OC 1 2 2; OC 2 1 1]; [OC 4 1 2]; [OC 5 1 1; OC 6 1 1]].
 Proof. vm_compute. split; reflexivity. Qed.
 
+(* ---------- the reader's OWN sweep (Model/Reader.v: calculate_row_spans over document elements) refines the abstract one ----------
+   abs_rows: each cell of each row as (gridSpan, continuation flag, identity = row * stride + position).  For every list of rows of cells
+   the reader's sweep returns, with no extras and no messages, exactly the rows `row_spans` keeps: the same cells, in order, each with its own
+   children and colspan and with the rowspan the abstract sweep assigns - an equation, not a correspondence *)
+Theorem C09_reader_sweep_refines (rows : list delem) :
+  table_rows_ok rows = true ->
+  calculate_row_spans rows = mkRR (conc_rows (find_cell rows) rows (row_spans (abs_rows rows))) [] []
+  /\ length (row_spans (abs_rows rows)) = length rows.
+Proof. exact (calculate_row_spans_refines rows). Qed.
+
+(* hence the grid theorem holds for what the reader actually returns: laying out the reader's cells by the HTML table algorithm covers every
+   grid position with the cell that owns it in the document *)
+Theorem C09_reader_table_layout (W : N) (rows : list delem) :
+  table_rows_ok rows = true -> wf_tiling W (abs_rows rows) = true ->
+  match reader_ocells rows with Some ocs => html_layout (N.to_nat W) ocs | None => None end
+  = Some (doc_grid (abs_rows rows) []).
+Proof. exact (reader_table_layout W rows). Qed.
+
 Print Assumptions C09_rowspans_layout.
 Print Assumptions C09_cells_kept.
 Print Assumptions C09_cell.
 Print Assumptions C09_row.
 Print Assumptions C09_table.
+Print Assumptions C09_reader_sweep_refines.
+Print Assumptions C09_reader_table_layout.
